@@ -221,6 +221,9 @@ def verify_one(task):
     res["sample_props"] = [p["property"] + ": " + p.get("description", "")[:100] for p in real[:3]]
     if bad_msgs:
         res.update(status="infra", detail="cbmc warnings: " + " | ".join(bad_msgs)[:1500])
+    elif (not canary or canary[0]["status"] == "SUCCESS") and failed and all(p["status"] == "FAILURE" for p in failed):
+        # the end of the harness is unreachable because an obligation before it fails on every path (assert(false) in the source)
+        res.update(status="failed", detail="; ".join(p["property"] for p in failed[:5]))
     elif not canary or canary[0]["status"] == "SUCCESS":
         res.update(status="infra", detail="vacuity canary did not fail: preconditions contradictory or harness unreachable")
     elif res["n_post"] == 0 and not task.get("plain"):
